@@ -57,7 +57,7 @@ def attributeTo (o : Obs) : Option String :=
      && o.setup.startsWith "spill" && contains up "ORDER BY"
      && (o.neutral == "ok" || o.neutral == "err") then some "C29-F1"
   else if chainOps up ≥ 2000 && ((o.outcome == "abort" && o.kind == "stack-overflow")
-       || (o.outcome == "timeout" && (o.phase == "logical" || o.phase == "optimized"))) then some "C29-F2"
+       || o.outcome == "timeout") then some "C29-F2"
   else if o.outcome == "timeout" && o.phase == "parse" && maxDepth o.sql ≥ 41 && (contains up "CAST(" || contains up "ARRAY[") then some "C29-F3"
   else if o.outcome == "panic" && (contains o.kind "physical::operators::filter::" || contains o.kind "hash_agg.rs" || contains o.kind "physical::morsel_agg::AccumulatorState")
      && contains o.detail "attempt to " && contains o.detail "with overflow"
